@@ -1,5 +1,6 @@
 import RV.C11.Lemmas
 import RV.C11.N3Lemmas
+import RV.C11.ApiLemmas
 /-
   C11 — "Property paths denote the relation SPARQL defines, for every binding of the ends."
 
@@ -565,6 +566,107 @@ example : build (.seq (.seq (.iri 10) [.iri 11]) [.seq (.iri 10) [.iri 10]]) =
 example : translate (.altS (.seqS (.elt (.altS (.seqS (.elt (.iri 10) none) [.invS (.elt (.iri 11) none)]) []) (some .zeroOrMore)) [])
       [.seqS (.elt (.nps [10] [12]) none) []]) =
     .alt [.mul (.seq (.iri 10) [.inv (.iri 11)]) .zeroOrMore, .neg [10] [12]] := rfl
+
+/-! ### Round g — the Graph API with a path as predicate (`Graph.triples` dispatch, `in`, `objects` / `subjects` /
+`subject_objects` with `unique=`, list-valued ends, `Graph.value`) -/
+
+/-- Every entry point answers with exactly the relation the code computes for the path (`relC`; the specified one
+    unless C11-F5 applies), whatever `unique` is. -/
+def Statement_api_dispatch : Prop :=
+  ∀ (g : Graph) (p : Path),
+    (∀ a b, gContains g p a b = true ↔ relC g p a b) ∧
+    (∀ a u y, y ∈ gObjects g p (some a) u ↔ relC g p a y) ∧
+    (∀ b u x, x ∈ gSubjects g p (some b) u ↔ relC g p x b) ∧
+    (∀ u x y, (x, y) ∈ gSubjectObjects g p u ↔ relC g p x y ∧ x ∈ nodes g ∧ y ∈ nodes g) ∧
+    (∀ ss u y, y ∈ gObjectsOfList g p ss u ↔ ∃ a ∈ ss, relC g p a y) ∧
+    (∀ os u x, x ∈ gSubjectsOfList g p os u ↔ ∃ b ∈ os, relC g p x b) ∧
+    (∀ a, (gValueObj g p a = none ↔ ∀ y, ¬ relC g p a y) ∧ ∀ y, gValueObj g p a = some y → relC g p a y) ∧
+    (∀ b, (gValueSubj g p b = none ↔ ∀ x, ¬ relC g p x b) ∧ ∀ x, gValueSubj g p b = some x → relC g p x b)
+
+/-- `unique=True` answers are duplicate-free for every path (not only closures). -/
+def Statement_api_unique_nodup : Prop :=
+  ∀ (g : Graph) (p : Path),
+    (∀ s, (gObjects g p s true).Nodup) ∧ (∀ o, (gSubjects g p o true).Nodup) ∧ (gSubjectObjects g p true).Nodup
+
+theorem mem_gObjects (g : Graph) (p : Path) (a : Term) (u : Bool) (y : Term) :
+    y ∈ gObjects g p (some a) u ↔ relC g p a y := by
+  have key : y ∈ (gTriples g p (some a) none).map (·.2) ↔ relC g p a y := by
+    simp only [List.mem_map, gTriples]
+    constructor
+    · rintro ⟨⟨x, y'⟩, h, rfl⟩
+      obtain ⟨hr, hs, _⟩ := (path_computes g p _ _ x y').mp h
+      exact (hs a rfl) ▸ hr
+    · intro hr
+      exact ⟨(a, y), (path_computes g p _ _ a y).mpr ⟨hr, by simp, by simp, by simp⟩, rfl⟩
+  cases u <;> simp only [gObjects, mem_uniq_nil, key, if_true, Bool.false_eq_true, if_false]
+
+theorem mem_gSubjects (g : Graph) (p : Path) (b : Term) (u : Bool) (x : Term) :
+    x ∈ gSubjects g p (some b) u ↔ relC g p x b := by
+  have key : x ∈ (gTriples g p none (some b)).map (·.1) ↔ relC g p x b := by
+    simp only [List.mem_map, gTriples]
+    constructor
+    · rintro ⟨⟨x', y⟩, h, rfl⟩
+      obtain ⟨hr, _, ho, _⟩ := (path_computes g p _ _ x' y).mp h
+      exact (ho b rfl) ▸ hr
+    · intro hr
+      exact ⟨(x, b), (path_computes g p _ _ x b).mpr ⟨hr, by simp, by simp, by simp⟩, rfl⟩
+  cases u <;> simp only [gSubjects, mem_uniq_nil, key, if_true, Bool.false_eq_true, if_false]
+
+theorem api_dispatch : Statement_api_dispatch := by
+  intro g p
+  refine ⟨?_, mem_gObjects g p, mem_gSubjects g p, ?_, ?_, ?_, ?_, ?_⟩
+  · intro a b
+    have h := path_computes g p (some a) (some b)
+    simp only [gContains, gTriples]
+    constructor
+    · intro hc
+      cases hl : evalPath g p (some a) (some b) with
+      | nil => rw [hl] at hc; cases hc
+      | cons r rs =>
+        obtain ⟨x, y⟩ := r
+        obtain ⟨hr, hs, ho, _⟩ := (h x y).mp (hl ▸ List.mem_cons_self ..)
+        exact (hs a rfl) ▸ (ho b rfl) ▸ hr
+    · intro hr
+      have := (h a b).mpr ⟨hr, by simp, by simp, by simp⟩
+      cases hl : evalPath g p (some a) (some b) with
+      | nil => rw [hl] at this; cases this
+      | cons r rs => rfl
+  · intro u x y
+    have h := path_computes g p none none x y
+    cases u <;> simp only [gSubjectObjects, gTriples, mem_uniq_nil, h, if_true, Bool.false_eq_true, if_false] <;> simp
+  · intro ss u y
+    simp only [gObjectsOfList, List.mem_flatMap, mem_gObjects]
+  · intro os u x
+    simp only [gSubjectsOfList, List.mem_flatMap, mem_gSubjects]
+  · intro a
+    refine ⟨?_, fun y h => (mem_gObjects g p a false y).mp (mem_of_head? h)⟩
+    rw [gValueObj, head?_eq_none_iff']
+    exact forall_congr' fun y => not_congr (mem_gObjects g p a false y)
+  · intro b
+    refine ⟨?_, fun x h => (mem_gSubjects g p b false x).mp (mem_of_head? h)⟩
+    rw [gValueSubj, head?_eq_none_iff']
+    exact forall_congr' fun x => not_congr (mem_gSubjects g p b false x)
+
+theorem api_unique_nodup : Statement_api_unique_nodup := by
+  intro g p
+  refine ⟨fun s => ?_, fun o => ?_, ?_⟩
+  · simp only [gObjects, if_true]; exact nodup_uniq _ _
+  · simp only [gSubjects, if_true]; exact nodup_uniq _ _
+  · simp only [gSubjectObjects, if_true]; exact nodup_uniq _ _
+
+/-- the same against the *specified* relation, for every path without an inverse member in a negated set (C11-F5) -/
+theorem api_dispatch_correct_partial (g : Graph) (p : Path) (h : p.noInvNeg = true) :
+    (∀ a b, gContains g p a b = true ↔ rel g p a b) ∧
+    (∀ a u y, y ∈ gObjects g p (some a) u ↔ rel g p a y) ∧
+    (∀ b u x, x ∈ gSubjects g p (some b) u ↔ rel g p x b) ∧
+    (∀ u x y, (x, y) ∈ gSubjectObjects g p u ↔ rel g p x y ∧ x ∈ nodes g ∧ y ∈ nodes g) := by
+  have := api_dispatch g p
+  rw [relC_eq_rel g p h] at this
+  exact ⟨this.1, this.2.1, this.2.2.1, this.2.2.2.1⟩
+
+example : gContains exG exP 1 6 = true ∧ gObjects exG (.seq (.iri 10) [.inv (.iri 10)]) (some 1) false = [1] ∧
+    gObjects exG (.alt [.iri 10, .inv (.iri 10)]) (some 1) false = [2, 2] ∧
+    gObjects exG (.alt [.iri 10, .inv (.iri 10)]) (some 1) true = [2] ∧ gValueObj exG exP 9 = none := by decide
 
 /-! ### The repaired defects of the pinned code (before the `fix:` commits now on /repo main), kept as
     regression witnesses.  Each definition is the pre-fix generator; each theorem shows on a
